@@ -184,7 +184,12 @@ Ltac pw := change (2 ^ 31) with 2147483648 in *; change (2 ^ 32) with 4294967296
 
 Theorem spec_scalar_value_rt t v : spec_value_ok t v = true -> spec_scalar_value t (stok t v) = Some v.
 Proof.
-  intros Hv. destruct t; destruct v as [z|l|k l]; try discriminate Hv; cbn [spec_value_ok stok spec_scalar_value] in *;
+  intros Hv.
+  assert (Hstr : t = TYPE_STRING -> spec_scalar_value t (stok t v) = Some v).
+  { intros ->. destruct v as [z|l|k l]; try discriminate Hv. cbn [spec_value_ok stok spec_scalar_value] in *.
+    apply andb_prop in Hv. destruct Hv as [_ Hu]. rewrite Hu. reflexivity. }
+  destruct t; try (apply Hstr; reflexivity); clear Hstr;
+    destruct v as [z|l|k l]; try discriminate Hv; cbn [spec_value_ok stok spec_scalar_value] in *;
     try reflexivity; f_equal; f_equal; unfold spec_signed; pw.
   - (* double *) apply spec_of_le_le. change (256 ^ Z.of_nat 8) with 18446744073709551616. lia.
   - (* float *) apply spec_of_le_le. change (256 ^ Z.of_nat 4) with 4294967296. lia.
